@@ -345,6 +345,8 @@ static void check_accessors(const struct nodeval *n, int as_uint)
 		mc_violation("wrong-value", "get_double returned %.17g, expected %.17g", gd, ed);
 	else if (ed_err == EINVAL && gd_errno != EINVAL)
 		mc_violation("wrong-errno", "get_double: errno %d, expected EINVAL", gd_errno);
+	else if ((n->k == N_DBL || n->k == N_INT || n->k == N_BOOL) && gd_errno != 0)
+		mc_violation("spurious-errno", "get_double: errno %d on an exact conversion", gd_errno);
 	int gb = json_object_get_boolean(o);
 	if (!!gb != !!eb)
 		mc_violation("wrong-value", "get_boolean returned %d, expected %d", gb, eb);
